@@ -524,6 +524,17 @@ def case_cluster(ctx, rng, idx):
         ctx.ev("cluster-distances", len(users) == nu * ncell, cls="user-count", detail=tag)
         up = np.array([complex(u.pos) for u in users])
         want = np.abs(up[:, None] - centres[None, :])
+        if ncell == 19 and ctype != "square" and rng.random() < 0.5:
+            # wrapped copies of the cells (only offered for 19 cells) are extra
+            # drawing objects: users, cells and both distance matrices stay
+            okw, _ = ctx.call("cluster-distances", cl.create_wrap_around_cells,
+                              bool(rng.integers(0, 2)), cls="create_wrap_around_cells",
+                              detail=tag)
+            if okw:
+                tag = {**tag, "wrap_around_cells": True}
+                ctx.ev("cluster-distances", len(cl.get_all_users()) == nu * ncell and
+                       [complex(c.pos) for c in cl] == [complex(z) for z in centres],
+                       cls="after-wrap:users-and-cells", detail=tag)
         for name in ("calc_dist_all_users_to_each_cell_no_wrap_around",
                      "calc_dist_all_users_to_each_cell"):
             okc, Dm = ctx.call("cluster-distances", getattr(cl, name), detail=tag)
